@@ -162,6 +162,25 @@ func Stats(h *History) RunStats {
 	if len(h.Notifs) > 0 {
 		s.Probes["notification_sent"] += len(h.Notifs)
 	}
+	if h.Scenario.Cfg.Cgf {
+		s.Probes["cgf_enabled_run"]++
+		logins := 0
+		for _, e := range h.FTP {
+			switch e.What {
+			case "login":
+				logins++
+			case "stor":
+				s.Probes["ftp_file_transferred"]++
+			case "idle-timeout":
+				s.Probes["ftp_idle_timeout"]++
+			case "restart":
+				s.Probes["ftp_server_restart"]++
+			}
+		}
+		if logins > 1 {
+			s.Probes["ftp_relogin"] += logins - 1
+		}
+	}
 	for k, v := range h.Fired {
 		s.Faults[k] = v
 	}
